@@ -62,7 +62,7 @@ class Check(CheckBase):
     title = "firmware version gating"
     bounds = {"quick": {"version": "three components, digit counts (1,1,1), (1,2,1), (2,1,2), (1,1,3), (1,3,1); every digit symbolic 0-9",
                         "thresholds": ", ".join(THRESHOLDS), "handshake": "each probe: empty / non-EBB text / EBB banner with symbolic version / "
-                        "SerialException; Serial() may raise; enumerator may find nothing; fresh and re-used connection object",
+                        "SerialException; Serial() may raise; enumerator may find nothing; fresh and re-used connection object; after a refusal for old firmware: a second connect() and one command on the same object",
                         "gated helpers": "V answered by: banner with symbolic version / OK / Err line / nothing / banner without version"},
               "thorough": {"version": "three components, all 27 combinations of 1-3 digits; every digit symbolic", "thresholds": ", ".join(THRESHOLDS),
                            "handshake": "as quick", "gated helpers": "as quick"}}
